@@ -55,6 +55,18 @@ def gen(rng, tier):
                 c['locals_self'] = 'loc'
                 c['actions'][0].setdefault('watches', []).append('loc')
             yield c
+        elif r < 0.98:
+            # the budget runs out while a WATCH is being collected, then a capture yields an object that watch recorded
+            c = cc.gen_case(rng, nobj=rng.choice([10, 16, 25]), capture='return', watches=False, stream='watch-cut-capture',
+                            frame_type=rng.choice(['no_frame', 'no_frame', 'single_frame']),
+                            lim={'vars': rng.choice([1, 2, 3, 5]), 'str': None, 'coll': None,
+                                 'depth': rng.choice([None, 1, 2])})
+            wide = [(nm, j) for nm, j in c['locals'] if c['objs'][j]['t'] in ('list', 'tuple') and len(c['objs'][j]['e']) >= 2]
+            if wide:
+                nm, j = rng.choice(wide)
+                c['actions'][0]['watches'] = [nm] + ([nm] if rng.random() < 0.3 else [])
+                c['capture_expr'] = rng.choice(['%s[0]' % nm, '%s[1]' % nm, nm, '%s[-1]' % nm])
+            yield c
         else:
             # a captured return value after the budget is used up
             yield cc.gen_case(rng, nobj=rng.choice([10, 16, 25]), capture='return', watches=False, stream='capture-budget',
@@ -79,6 +91,11 @@ def corpus():
                   {'t': 'str', 'v': 'bb'}],
          'locals': [['a', 0], ['b', 4]], 'frame_type': 'single_frame', 'stream': 'corpus', 'capture': 'return',
          'capture_expr': '[a, b, 7]', 'actions': [{'limits': {'vars': 2}}]},
+        # the budget runs out inside a watch; the return value is an element that watch recorded
+        {'objs': [{'t': 'list', 'e': [1, 2, 3, 4]}, {'t': 'str', 'v': 'first'}, {'t': 'str', 'v': 'second'},
+                  {'t': 'str', 'v': 'third'}, {'t': 'str', 'v': 'fourth'}],
+         'locals': [['reg', 0]], 'frame_type': 'no_frame', 'stream': 'corpus', 'capture': 'return',
+         'capture_expr': 'reg[0]', 'actions': [{'limits': {'vars': 2}, 'watches': ['reg']}]},
         # a value whose inspection raises, first seen by a watch, then watched again
         {'objs': [{'t': 'list', 'e': [1, 2]}, {'t': 'int', 'v': 300}, {'t': 'hostile', 'k': 'slots_getattr'}],
          'locals': [['x', 0]], 'frame_type': 'no_frame', 'stream': 'corpus',
